@@ -1,5 +1,7 @@
-//go:build verif && purego
+//go:build verif && (purego || !amd64)
 
 package x25519
 
 const vc06Purego = true
+
+func vc06Backend() string { return "generic-go" }
